@@ -218,6 +218,18 @@ def _synthetic_corr(ctx, n, kind):
     else:  # smoothed noise: irregular crossings
         w = rng.randint(2, 6)
         x = np.convolve(g.standard_normal(n + w), np.ones(w) / w, mode="valid")[:n]
+    if kind in ("decay", "beat") and rng.random() < 0.5:
+        # an earlier sample on the flank of a larger lobe that differs from a later extremum's value by 3e-7 relative only
+        # (any sampled decay has such near-coincidences sooner or later): the extremum is still the sample EQUAL to its value
+        h = n // 2
+        ext = [j for j in range(2, h - 1) if (x[j] - x[j - 1]) * (x[j + 1] - x[j]) < 0]
+        for j in ext[2:8]:
+            v = x[j]
+            cand = [i for i in range(1, j - 2) if (x[i - 1] - v) * (x[i + 1] - v) < 0 and i not in ext and i - 1 not in ext and i + 1 not in ext]
+            if cand:
+                x[cand[0]] = v * (1.0 + 3e-7)
+                ctx.count("post_near_coincident_sample")
+                break
     x = x * rng.choice([1.0, 3.7, 1e-6, -2.0 if kind == "noise" else 1.0])
     return x.astype(complex) + 1j * g.standard_normal(n) * 0.1  # imaginary part is discarded by the code
 
